@@ -93,6 +93,7 @@ def gen_op(rng, type_changing=False):
         lambda: {"op": "relabel", "pick": rng.randint(0, 9), "unit": rng.choice(PHYS + ["-"]),
                  "via": rng.choice(["proxy", "proxy", "units_setter", "set_all_units"])},
         lambda: {"op": "consult"},
+        lambda: {"op": "consult", "via": rng.choice(["lenient", "facade"])},
     ]
     direct = [
         lambda: {"op": "df_set", "col": rng.choice(CNAMES_X), "kind": rng.choice(kinds_pool)},
@@ -378,7 +379,18 @@ class History:
             return
         if name == "consult":
             try:
-                t.units
+                if op.get("via") == "lenient":
+                    # the same checked access through the frame-level accessor, asked not to fail on a missing register
+                    from pdtable.frame import get_table_info
+
+                    info = get_table_info(df, fail_if_missing=False)
+                    seen = [[lab(k), str(v.unit)] for k, v in info.columns.items()]
+                    if df.shape[0] > 0 and t.metadata.strict_types:
+                        self.checks.append({"names": [str(c) for c in df.columns], "units": [u for _, u in seen],
+                                            "by_name": [u for _, u in seen], "dtypes": [str(d.kind) for d in df.dtypes],
+                                            "lenient_names": [k for k, _ in seen], "frame_names": [lab(c) for c in df.columns]})
+                else:
+                    t.units
                 self._record(["OConsult"], False)
                 self._consult_checks()
             except Exception as e:
